@@ -24,18 +24,22 @@ def renderMDrops (l : List (MDrop Int Int)) : String :=
     | .up _ n => renderNotifBare n
     | .down n => renderNotifBare n))
 
-/-- run with per-step emission counts -/
+/-- the run of `runMulti` / `runMultiCut`, step by step, with per-step emission counts -/
 def runSteps {σ : Type} (m : MMachine σ Int Int) (cfg : Sources Int) (sub : Ctx) (order : List Nat) (cut : Option Nat) :
     MSt σ Int Int × List Nat :=
-  let stepAll := fun (acc : MSt σ Int Int × List Nat) (ks : List Nat) =>
-    ks.foldl (fun (acc : MSt σ Int Int × List Nat) k =>
-      let r' := hotStep m cfg acc.1 k
-      (r', acc.2 ++ [r'.out.length - acc.1.out.length])) acc
+  let stepAll := fun (acc : (MSt σ Int Int × (Nat → Nat)) × List Nat) (ks : List Nat) =>
+    ks.foldl (fun (acc : (MSt σ Int Int × (Nat → Nat)) × List Nat) k =>
+      match nextEvent cfg acc.1.2 k with
+      | none => (acc.1, acc.2 ++ [0])
+      | some e =>
+        let r' := feed m cfg acc.1.1 e
+        ((r', setAt acc.1.2 k (acc.1.2 k + 1)), acc.2 ++ [r'.out.length - acc.1.1.out.length])) acc
   match cut with
-  | none => stepAll (bootSt m cfg sub, []) order
+  | none => let a := stepAll ((bootSt m cfg sub, fun _ => 0), []) order; (a.1.1, a.2)
   | some c =>
-    let a := stepAll (bootSt m cfg sub, []) (order.take c)
-    stepAll (a.1.cut m, a.2) (order.drop c)
+    let a := stepAll ((bootSt m cfg sub, fun _ => 0), []) (order.take c)
+    let b := stepAll ((a.1.1.cut m, a.1.2), a.2) (order.drop c)
+    (b.1.1, b.2)
 
 def listNats (l : List Nat) : String := if l.isEmpty then "-" else ",".intercalate (l.map toString)
 
